@@ -19,9 +19,9 @@ def DefOK (cx : Cx) (m j : Nat) (dIn dOut : List LItem) : Option Nat → Prop
 `L`, `Cs`: the loop and case stacks around the switch. -/
 structure SwSem (cx : Cx) (fuel : Nat) (env : Src.Env) (endL : Nat) (L : List (Nat × Nat)) (Cs : List Nat)
     (SC : Src.Cases) (Hn Cn dIn dOut : List LItem) : Prop where
-  grow : ∀ k nt b, Grow b (Src.trCases fuel [] (brkEnv env k) SC k nt b).1
+  grow : ∀ k nt b, Grow cx.Z b (Src.trCases fuel [] (brkEnv env k) SC k nt b).1
   corr : ∀ k nt r pH pC, Placed cx.rs r pH Hn → Placed cx.rs r pC Cn → ∀ b,
-    AgreeOn cx.N b (Src.trCases fuel [] (brkEnv env k) SC k nt b).1 → ∀ m j (sC : St), sC.loops = L → sC.cases = endL :: Cs →
+    AgreeOn cx.N cx.Z b (Src.trCases fuel [] (brkEnv env k) SC k nt b).1 → ∀ m j (sC : St), sC.loops = L → sC.cases = endL :: Cs →
     ExitsOK cx m j sC (brkEnv env k) → R2 cx m j ⟨r, pC + Cn.length⟩ k →
     (R2 cx m j ⟨r, pH + Hn.length⟩ nt → R2 cx m j ⟨r, pH⟩ (Src.trCases fuel [] (brkEnv env k) SC k nt b).2.2.1) ∧
     R2 cx m j ⟨r, pC⟩ (Src.trCases fuel [] (brkEnv env k) SC k nt b).2.1 ∧
@@ -35,10 +35,10 @@ theorem sw_nil (cx : Cx) (fuel : Nat) (env : Src.Env) (endL : Nat) (L : List (Na
   exact ⟨fun h => by simpa using h, by simpa using hend, rfl⟩
 
 /-- a case with a block: the header jumps of the handlers waiting for it, its own header jump, its block -/
-theorem sw_case (cx : Cx) (fuel : Nat) (env : Src.Env) (he : PlainEnv env) (endL : Nat) (L : List (Nat × Nat)) (Cs : List Nat)
+theorem sw_case (cx : Cx) (fuel : Nat) (env : Src.Env) (he : EnvOK cx env) (endL : Nat) (L : List (Nat × Nat)) (Cs : List Nat)
     (w : List (Option BP)) (hs dIn d1 : List LItem) (sL eB : Nat) (ops : List LItem) (sa sb : St) (body : Stmts) (n : Nat) (bp : BP)
     (htest : isTest bp.name = true)
-    (hP : ∀ env', PlainEnv env' → PieceOK cx ops sa sb (fun k b => Src.trStmts fuel [] env' (toSrcStmts body) k b) env')
+    (hP : ∀ env', EnvOK cx env' → PieceOK cx ops sa sb (fun k b => Src.trStmts fuel [] env' (toSrcStmts body) k b) env')
     (hsaL : sa.loops = L) (hsaC : sa.cases = endL :: Cs) (hW : WaitSem cx fuel sL w hs dIn d1)
     {SCr : Src.Cases} {Hr Cr dOut : List LItem} (hR : SwSem cx fuel env endL L Cs SCr Hr Cr d1 dOut)
     (hnd : hasNone w = true → ∀ k nt b, (Src.trCases fuel [] (brkEnv env k) SCr k nt b).2.2.2 = none) :
@@ -66,15 +66,15 @@ theorem sw_case (cx : Cx) (fuel : Nat) (env : Src.Env) (he : PlainEnv env) (endL
     at hag gW ebW edW cW ⊢
   obtain ⟨a1, a2⟩ := tbl_push Bd.1 (.test ⟨bp.name, convParams bp.params⟩ Bd.2 T0.2.2.1)
   -- the node table
-  have agR : AgreeOn cx.N b T0.1 := hag.sub_grow (Grow.refl b) ((gB.trans (Grow.push _ _)).trans gW)
-  have agB : AgreeOn cx.N T0.1 Bd.1 := hag.sub_grow gR ((Grow.push _ _).trans gW)
-  have agW : AgreeOn cx.N (Bd.1.push (.test ⟨bp.name, convParams bp.params⟩ Bd.2 T0.2.2.1)).1 TW.1 :=
+  have agR : AgreeOn cx.N cx.Z b T0.1 := hag.sub_grow (Grow.refl b) ((gB.trans (Grow.push _ _)).trans gW)
+  have agB : AgreeOn cx.N cx.Z T0.1 Bd.1 := hag.sub_grow gR ((Grow.push _ _).trans gW)
+  have agW : AgreeOn cx.N cx.Z (Bd.1.push (.test ⟨bp.name, convParams bp.params⟩ Bd.2 T0.2.2.1)).1 TW.1 :=
     hag.sub_grow ((gR.trans gB).trans (Grow.push _ _)) (Grow.refl _)
   have hN : cx.N[(tbl Bd.1).length]? = some (.test ⟨bp.name, convParams bp.params⟩ Bd.2 T0.2.2.1) := by
     have hl1 := gW.len
     rw [a1] at hl1
     simp only [List.length_append, List.length_cons, List.length_nil] at hl1
-    rw [hag _ (gR.trans gB).len (by omega), gW.get (by rw [a1]; simp), a1]
+    rw [hag.2 _ (gR.trans gB).len (by omega), gW.get (by have := hag.1; have := (gR.trans gB).len; omega) (by rw [a1]; simp), a1]
     simp
   -- positions
   have hpHs : Placed cx.rs r pH hs := hpH.left.left
@@ -120,9 +120,9 @@ theorem sw_case (cx : Cx) (fuel : Nat) (env : Src.Env) (he : PlainEnv env) (endL
       rw [← hd1]; exact dR
 
 /-- the default with a block: the header jumps of the handlers waiting for it, the jump of the default ops, its block -/
-theorem sw_default (cx : Cx) (fuel : Nat) (env : Src.Env) (he : PlainEnv env) (endL : Nat) (L : List (Nat × Nat)) (Cs : List Nat)
+theorem sw_default (cx : Cx) (fuel : Nat) (env : Src.Env) (he : EnvOK cx env) (endL : Nat) (L : List (Nat × Nat)) (Cs : List Nat)
     (w : List (Option BP)) (hs dIn d1 : List LItem) (sL eB : Nat) (ops : List LItem) (sa sb : St) (body : Stmts) (n0 : Nat)
-    (hP : ∀ env', PlainEnv env' → PieceOK cx ops sa sb (fun k b => Src.trStmts fuel [] env' (toSrcStmts body) k b) env')
+    (hP : ∀ env', EnvOK cx env' → PieceOK cx ops sa sb (fun k b => Src.trStmts fuel [] env' (toSrcStmts body) k b) env')
     (hsaL : sa.loops = L) (hsaC : sa.cases = endL :: Cs)
     (hW : WaitSem cx fuel sL w hs [LItem.ljump ⟨n0, Gen.op_jump, []⟩ (some sL)] d1)
     {SCr : Src.Cases} {Hr Cr dOut : List LItem} (hR : SwSem cx fuel env endL L Cs SCr Hr Cr d1 dOut)
@@ -149,9 +149,9 @@ theorem sw_default (cx : Cx) (fuel : Nat) (env : Src.Env) (he : PlainEnv env) (e
   simp only at gW ebW edW cW
   generalize hTW : Src.trCases fuel [] (brkEnv env k) (wSrc w (.cons true ⟨"", []⟩ (toSrcStmts body) SCr)) k nt b = TW
     at hag gW ebW edW cW ⊢
-  have agR : AgreeOn cx.N b T0.1 := hag.sub_grow (Grow.refl b) (gB.trans gW)
-  have agB : AgreeOn cx.N T0.1 Bd.1 := hag.sub_grow gR gW
-  have agW : AgreeOn cx.N Bd.1 TW.1 := hag.sub_grow (gR.trans gB) (Grow.refl _)
+  have agR : AgreeOn cx.N cx.Z b T0.1 := hag.sub_grow (Grow.refl b) (gB.trans gW)
+  have agB : AgreeOn cx.N cx.Z T0.1 Bd.1 := hag.sub_grow gR gW
+  have agW : AgreeOn cx.N cx.Z Bd.1 TW.1 := hag.sub_grow (gR.trans gB) (Grow.refl _)
   have hpHs : Placed cx.rs r pH hs := hpH.left
   have hpHr : Placed cx.rs r (pH + hs.length) Hr := hpH.right
   have hpBlk : Placed cx.rs r pC ([LItem.label sL false] ++ ops ++ [LItem.label eB false] ++ Cr) := hpC
